@@ -18,12 +18,14 @@ pub const T_ANCHOR: u32 = 64; // push-rule edit script
 pub const T_GLOB: u32 = 128; // `pattern \n value` for glob / word matching
 
 pub const BYTE_KINDS: [&str; 7] = ["bitflip", "delete", "insert", "truncate", "dup_span", "splice", "truncate_at_delim"];
-const JSON_KINDS: [&str; 6] = ["json_delete_member", "json_dup_member", "json_type_swap", "json_long_string", "json_nest", "json_string_edit"];
+const JSON_KINDS: [&str; 8] = ["json_delete_member", "json_dup_member", "json_type_swap", "json_long_string", "json_nest", "json_string_edit", "json_string_copy", "json_glob_blowup"];
 /// Short strings that sit on the edges of the little grammars inside JSON string values.
 const STRING_TOKENS: [&str; 28] = [
     "", "=", "==", "<", ">", "<=", ">=", "=\u{e9}", ".", "..", ".1", "v", "v1", "v1.", "1.", ":", "@", "@:", "$", "#", "!", "*", "?", "\\", "%", "%e", "matrix:", "mxc://",
 ];
-const DELIM_KINDS: [&str; 3] = ["delim_double", "delim_empty", "seg_long"];
+const DELIM_KINDS: [&str; 4] = ["delim_double", "delim_empty", "seg_long", "value_token"];
+/// What is left of a parameter value after a sloppy client or a hostile peer had its way.
+const VALUE_TOKENS: [&str; 16] = ["", "+", "%20", "%", "%zz", "%00", "{", "[", "\"", "0", "-1", "99999999999999999999", "a=b", "&", "%2F", "\u{e9}"];
 const ANCHOR_KINDS: [&str; 3] = ["anchor_self", "anchor_last", "anchor_empty"];
 
 const NEST_DEPTHS: [usize; 7] = [32, 100, 127, 128, 129, 512, 1000];
@@ -32,9 +34,9 @@ const SEG_LENGTHS: [usize; 6] = [254, 255, 256, 257, 511, 512];
 const DELIMS: &[u8] = b"/:?#%[]@!$.";
 const HTML_ELEMENTS: [&str; 12] = ["div", "span", "blockquote", "mx-reply", "ul", "li", "b", "font", "a", "table", "details", "p"];
 /// Values a JSON value is replaced by when its type is swapped (all are valid JSON texts).
-const SWAP_VALUES: [&str; 14] = [
+const SWAP_VALUES: [&str; 18] = [
     "null", "true", "0", "-1", "1.5", "\"\"", "[]", "{}", "\"x\"", "9007199254740992", "-9007199254740993", "18446744073709551616",
-    "1e999", "[null]",
+    "1e999", "[null]", "9007199254740991", "253402300800000", "-9007199254740991", "4294967296",
 ];
 
 /// Byte-level mutation kinds of an entry point.
@@ -193,12 +195,12 @@ pub fn apply(kind: &str, traits: u32, data: &mut Vec<u8>, other: &[u8], t: &mut 
             data.splice(i..i, b.iter().copied());
             true
         }
-        "json_delete_member" | "json_dup_member" | "json_type_swap" | "json_long_string" | "json_nest" | "json_string_edit" => {
+        "json_delete_member" | "json_dup_member" | "json_type_swap" | "json_long_string" | "json_nest" | "json_string_edit" | "json_string_copy" | "json_glob_blowup" => {
             let r = if http { http_body_range(data) } else { 0..data.len() };
             with_region(data, r, |d| json_mutate(kind, d, t))
         }
         "anchor_self" | "anchor_last" | "anchor_empty" => anchor_mutate(kind, data, t),
-        "delim_double" | "delim_empty" | "seg_long" => {
+        "delim_double" | "delim_empty" | "seg_long" | "value_token" => {
             let r = if http { http_uri_range(data) } else { 0..data.len() };
             with_region(data, r, |d| delim_mutate(kind, d, t))
         }
@@ -580,6 +582,37 @@ fn json_mutate(kind: &str, data: &mut Vec<u8>, t: &mut Tape) -> bool {
             };
             JsonOp::Replace(*k, serde_json::to_string(&edited).unwrap_or_else(|_| "\"\"".into()))
         }
+        "json_string_copy" => {
+            // one string of the document takes the place of another (an event citing itself or a
+            // sibling, a user ID where a room ID belongs, ...)
+            if c.strings.len() < 2 {
+                return false;
+            }
+            let a = t.index(c.strings.len());
+            let mut b = t.index(c.strings.len());
+            if a == b {
+                b = (b + 1) % c.strings.len();
+            }
+            let (k, old) = &c.strings[a];
+            let new = &c.strings[b].1;
+            if old == new {
+                return false;
+            }
+            JsonOp::Replace(*k, serde_json::to_string(new).unwrap_or_else(|_| "\"\"".into()))
+        }
+        "json_glob_blowup" => {
+            // a glob (a string with a wildcard) becomes the classic backtracking input
+            let globs: Vec<usize> = c.strings.iter().enumerate().filter(|(_, (_, s))| s.contains('*') || s.contains('?')).map(|(i, _)| i).collect();
+            if globs.is_empty() {
+                return false;
+            }
+            let (k, _) = &c.strings[globs[t.index(globs.len())]];
+            let n = 8 + t.below(40) as usize;
+            let unit = *t.pick(&["*a", "a*", "?*a", "*a?"]);
+            let mut g = unit.repeat(n);
+            g.push_str(*t.pick(&["*b", "b", "", "*"]));
+            JsonOp::Replace(*k, serde_json::to_string(&g).unwrap_or_else(|_| "\"\"".into()))
+        }
         "json_nest" => {
             let k = t.index(c.nodes);
             let depth = NEST_DEPTHS[t.index(NEST_DEPTHS.len())];
@@ -680,6 +713,18 @@ fn delim_mutate(kind: &str, data: &mut Vec<u8>, t: &mut Tape) -> bool {
                 return true;
             }
             false
+        }
+        "value_token" => {
+            // the value of one `name=value` pair (query string, header parameter) is replaced
+            let eqs: Vec<usize> = (0..scan).filter(|&i| data[i] == b'=').collect();
+            if eqs.is_empty() {
+                return false;
+            }
+            let p = eqs[t.index(eqs.len())] + 1;
+            let e = (p..data.len()).find(|&i| matches!(data[i], b'&' | b';' | b',' | b' ' | b'#' | b'\n')).unwrap_or(data.len());
+            let tok = VALUE_TOKENS[t.index(VALUE_TOKENS.len())];
+            data.splice(p..e, tok.bytes());
+            true
         }
         "seg_long" => {
             // segment starts: the beginning of the region and the byte after every delimiter
